@@ -473,6 +473,11 @@ where
                         Ok(CoroutineState::Suspend(y, timestamp))
                     }
                     CoroutineState::Syscall(y, syscall, state) => {
+                        // the wake-up time of this yield is carried by the syscall state itself,
+                        // consume the requests here so that they never leak into the next
+                        // coroutine that yields on this thread
+                        _ = Suspender::<Yield, Param>::is_cancel();
+                        _ = Suspender::<Yield, Param>::timestamp();
                         Ok(CoroutineState::Syscall(y, syscall, state))
                     }
                     _ => Err(Error::other(format!(
